@@ -12,9 +12,11 @@ import c04
 PART = "x23_mapbuf"
 CFG = {
     "quick":    dict(mc=["MC_MapBuf.cfg"], gen="Gen_MapBuf.cfg", genmeta="Gen_MapBuf_meta.cfg",
-                     bmc="MC_BitMap.cfg", bgen="Gen_BitMap.cfg", nhist=10, steps=30, bhist=30, bsteps=40),
+                     bmc="MC_BitMap.cfg", bgen="Gen_BitMap.cfg", nhist=10, steps=30, bhist=30, bsteps=40,
+                     igen="Gen_MetaIter.cfg", ihist=15, isteps=30),
     "thorough": dict(mc=["MC_MapBuf_t.cfg", "MC_MapBuf_meta.cfg"], gen="Gen_MapBuf_t.cfg", genmeta="Gen_MapBuf_meta_t.cfg",
-                     bmc="MC_BitMap_t.cfg", bgen="Gen_BitMap_t.cfg", nhist=60, steps=50, bhist=300, bsteps=80),
+                     bmc="MC_BitMap_t.cfg", bgen="Gen_BitMap_t.cfg", nhist=60, steps=50, bhist=300, bsteps=80,
+                     igen="Gen_MetaIter_t.cfg", ihist=250, isteps=50),
 }
 MAPPED = 0x10000
 PAGE = 4096
@@ -454,6 +456,137 @@ def bm_validate(ck, hist, events):
     return ok, matched, tres.generated
 
 
+# --------------------------------------------------------------------------
+# iterator face of the buffer metatype (spec/MetaIter.tla)
+# --------------------------------------------------------------------------
+NIT = 4
+
+
+def it_match(exp, obs, step=None, rec=None, prev=None):
+    if exp.get("ret") == "any":
+        return None
+    for k in ("ts", "ds", "ret"):
+        if obs.get(k) != exp.get(k):
+            return "%s: expected %s, observed %s" % (k, json.dumps(exp.get(k))[:200], json.dumps(obs.get(k))[:200])
+    return None
+
+
+def it_class(st, prev_obs):
+    """class of an iterator/metatype call from the driver's own log before it: what the acting (clone: the cloned)
+    instance had as current element"""
+    arg = st.get("arg") or {}
+    k = arg.get("from", arg.get("i"))
+    ts = (prev_obs or {}).get("ts") or []
+    if not isinstance(k, int) or not 0 < k <= len(ts):
+        return "first"
+    return "at-" + ts[k - 1]
+
+
+def it_signature(why, beh, i, recs_b):
+    prev = (recs_b[i - 1].get("obs") if 0 < i <= len(recs_b) else None) or {}
+    return "x23:iter:%s:%s:%s" % (beh[i]["a"], why.split(":")[0].lower(), it_class(beh[i], prev))
+
+
+def it_nontrivial(recs):
+    """a call moved one instance while another live instance stood on an element"""
+    prev = None
+    for r in recs:
+        o = r.get("obs") or {}
+        ts = o.get("ts")
+        if prev and ts and r.get("a") in ("iadv", "ireset") and (ts != prev.get("ts") or o.get("ds") != prev.get("ds")):
+            if sum(1 for t in ts if t in ("s", "v")) >= 2 or sum(1 for t in prev.get("ts") if t in ("s", "v")) >= 2:
+                return True
+        prev = o if ts else prev
+    return False
+
+
+def do_it_replay(cfgname):
+    """one TLC run: exhaustive check of MetaIter (the view is the full state) and behaviour export"""
+    gen = vlib.tlc("Gen_MetaIter", cfgname, workers=2, tag="Gen_MetaIter")
+    if gen.error:
+        raise vlib.MachineryError("behaviour export failed (%s): %s" % (cfgname, gen.error))
+    behs = vlib.parse_behaviours(gen.out)
+    gen.out = gen.out[-6000:]
+    recs, _ = vlib.run_driver(build(), vlib.to_script(behs), timeout=900, env=c04.DRV_ENV)
+    mms = vlib.compare(behs, recs, it_match)
+    by = vlib.group_records(recs)
+    found = []
+    for mm in mms:
+        beh = behs[mm["b"]]
+        found.append((it_signature(mm["why"], beh, mm["i"], by.get(mm["b"], [])),
+                      {"part": PART, "iter": True, "binding": "A(replay,iter)", "behaviour": beh[:mm["i"] + 1],
+                       "step": mm["i"], "why": mm["why"], "record": mm.get("rec")}))
+    nt = set("it" + c04.seq_key(beh) for b, beh in enumerate(behs) if it_nontrivial(by.get(b, [])))
+    note = dict(behaviours=len(behs), mismatches=len(mms), states=gen.distinct, transitions=gen.generated)
+    mid = len(behs) // 2
+    return dict(key="iter", found=found, nt=nt, note=note, tlc=gen, samples=[vlib.sample_repr(b) for b in behs[mid:mid + 1]])
+
+
+def gen_it_histories(rng, n, steps):
+    """texts of several NUL-separated segments (empty ones, an unterminated tail, segment lengths around 63/64 and 255,
+    totals around the heap granularity), clones taken at random positions, every instance moved/reset/released"""
+    behs = []
+    for hno in range(n):
+        nseg = rng.choice([0, 1, 1, 2, 3, 3, 4, 6])
+        text = []
+        ctr = hno
+        for k in range(nseg):
+            ln = rng.choice([0, 1, 2, 5, 5, 8, 62, 63, 64, 65, 127, 254, 255, 256, rng.randrange(0, 40)])
+            text += [((ctr + i) % 250) + 1 for i in range(ln)]
+            ctr += ln
+            if k < nseg - 1 or rng.random() < 0.45:
+                text.append(0)
+        beh = [{"a": "init", "arg": {"n": NIT, "gran": 0, "page": 0}},
+               {"a": "itext", "arg": {"data": text, "map": rng.choice([0, 1])}}]
+        live = {1}
+        for _ in range(steps):
+            r = rng.random()
+            free = [i for i in range(1, NIT + 1) if i not in live]
+            if r < 0.25 and free and live:
+                i = rng.choice(free)
+                beh.append({"a": "iclone", "arg": {"i": i, "from": rng.choice(sorted(live))}})
+                live.add(i)
+            elif r < 0.30:
+                beh.append({"a": "iclone", "arg": {"i": rng.randrange(1, NIT + 1), "from": rng.randrange(1, NIT + 1)}})
+            elif r < 0.38 and len(live) > 1:
+                i = rng.choice(sorted(live))
+                beh.append({"a": "iunref", "arg": {"i": i}})
+                live.discard(i)
+            elif r < 0.50:
+                beh.append({"a": "ireset", "arg": {"i": rng.randrange(1, NIT + 1)}})
+            else:
+                i = rng.choice(sorted(live)) if live and rng.random() < 0.9 else rng.randrange(1, NIT + 1)
+                beh.append({"a": "iadv", "arg": {"i": i}})
+        behs.append(beh)
+    return behs
+
+
+def it_record(ck, cfg):
+    hist = gen_it_histories(ck.rng, cfg["ihist"], cfg["isteps"])
+    recs, _ = vlib.run_driver(build(), vlib.to_script(hist), env=c04.DRV_ENV)
+    return hist, recs, vlib.merge_trace(hist, recs)
+
+
+def it_validate(ck, hist, events):
+    ok, matched, tres = vlib.validate_trace("Trace_MetaIter", events, tag="Trace_MetaIter", xss="512m")
+    if not ok:
+        ok2, matched2, _ = vlib.validate_trace("Trace_MetaIter", events, tag="Trace_MetaIter", xss="512m")
+        if ok2 or matched2 != matched:
+            ok, matched = ok2, matched2
+    if not ok:
+        if matched >= len(events):
+            ck.violation("x23:iter:trace:short", {"part": PART, "iter": True, "matched_prefix": matched})
+        else:
+            ev = events[matched]
+            prev = events[matched - 1] if matched and events[matched - 1]["b"] == ev["b"] else None
+            why = ev["a"].lower() if ev["a"] in ("Crash", "Hang", "Missing") else "rejected"
+            st = hist[ev["b"]][ev["i"]]
+            ck.violation("x23:iter:%s:%s:%s" % (st["a"], why, it_class(st, (prev or {}).get("obs"))),
+                         {"part": PART, "iter": True, "binding": "B(trace validation)", "matched_prefix": matched,
+                          "rejected_event": ev, "previous_event": prev, "behaviour": hist[ev["b"]][:ev["i"] + 1]})
+    return ok, matched, tres.generated
+
+
 class _Locked:
     """Check facade for worker threads: violation() under a lock"""
     def __init__(self, ck):
@@ -473,20 +606,24 @@ def run_part(ck, tier):
     build()
     hist, recs, events = record_traces(ck, cfg)          # uses ck.rng: before the threads start
     bhist, brecs, bevents = bm_record(ck, cfg)
+    ihist, irecs, ievents = it_record(ck, cfg)
     with ThreadPoolExecutor(max_workers=8) as ex:
         mcs = [("mapbuf: exhaustive " + m, ex.submit(vlib.tlc, "MC_MapBuf", m, 6, tag="MC_" + m)) for m in cfg["mc"]]
         mcs.append(("mapbuf: exhaustive " + cfg["bmc"], ex.submit(vlib.tlc, "MC_BitMap", cfg["bmc"], 2, tag="MC_BitMap")))
         reps = [ex.submit(do_replay, cfg["gen"], "map"), ex.submit(do_replay, cfg["genmeta"], "meta"),
-                ex.submit(do_bm_replay, cfg["bgen"])]
+                ex.submit(do_bm_replay, cfg["bgen"]), ex.submit(do_it_replay, cfg["igen"])]
         lck = _Locked(ck)
         tv = ex.submit(validate_traces, lck, hist, events)
         tb = ex.submit(bm_validate, lck, bhist, bevents)
+        ti = ex.submit(it_validate, lck, ihist, ievents)
         results = [f.result() for f in reps]
         mcres = [(w, f.result()) for w, f in mcs]
         ok, matched, tgen, cuts = tv.result()
         bok, bmatched, btgen = tb.result()
+        iok, imatched, itgen = ti.result()
     for what, res in mcres:
         ck.add_tlc(res, what)
+    ck.add_tlc(results[-1]["tlc"], "mapbuf: exhaustive + export " + cfg["igen"])
     note = ck.notes.setdefault(PART, {})
     nt = set()
     for r in results:
@@ -497,7 +634,7 @@ def run_part(ck, tier):
         ck.cov["transitions"] += r["note"]["transitions"]
         note.setdefault("replay", {})[r["key"]] = r["note"]
         ck.cov["samples"] = list(ck.cov.get("samples") or []) + r["samples"][:1]
-    ck.cov["transitions"] += tgen + btgen
+    ck.cov["transitions"] += tgen + btgen + itgen
     by = vlib.group_records(recs)
     for b, beh in enumerate(hist):
         if nontrivial(by.get(b, [])):
@@ -506,15 +643,22 @@ def run_part(ck, tier):
     for b, beh in enumerate(bhist):
         if bm_nontrivial(by.get(b, [])):
             nt.add("tbm" + c04.seq_key(beh))
+    by = vlib.group_records(irecs)
+    for b, beh in enumerate(ihist):
+        if it_nontrivial(by.get(b, [])):
+            nt.add("tit" + c04.seq_key(beh))
+    if iok:
+        ck.cov["traces_validated_against_impl"] += len(ihist)
     if ok:
         ck.cov["traces_validated_against_impl"] += len(hist)
     if bok:
         ck.cov["traces_validated_against_impl"] += len(bhist)
-    ck.cov["evaluations"] += len(hist) + len(bhist)
+    ck.cov["evaluations"] += len(hist) + len(bhist) + len(ihist)
     ck.cov["distinct_nontrivial"] += len(nt)
     note["trace"] = dict(histories=len(hist), events=len(events), matched=matched, accepted=ok,
                          behaviours_cut_at_known_finding=cuts)
     note["trace_bitmap"] = dict(histories=len(bhist), events=len(bevents), matched=bmatched, accepted=bok)
+    note["trace_iter"] = dict(histories=len(ihist), events=len(ievents), matched=imatched, accepted=iok)
     note["distinct_nontrivial"] = len(nt)
     note["wall_s"] = round(time.time() - t0, 1)
     ck.cov["rule"] = (ck.cov.get("rule") or "") + (
@@ -525,12 +669,16 @@ def run_part(ck, tier):
         "(guard page and canary bytes behind every mapping); the same for BitMap (per byte empty/full/mixed, last answer); seeded "
         "histories over 3 arrays + 1 metatype at page 4096 / granularity 128 (lengths around 3968, 4032, 8128 and 64/192) and seeded "
         "bitmap calls on maps of 0..300 bytes validated by TLC.  Non-trivial = a call changed what a handle reads while its mapped "
-        "buffer was shared just before, resp. a bitmap call changed the map.")
+        "buffer was shared just before, resp. a bitmap call changed the map.  Iterator face of the buffer metatype (MetaIter): every "
+        "transition of the complete state graph (texts of NUL-separated segments incl. empty ones and an unterminated tail; per "
+        "instance its position; clone taken at every position) replayed into mpt_meta_buffer / clone() / advance / reset / value, the "
+        "current element of EVERY instance read after every call; seeded histories over 4 instances on heap and mapped texts (segments "
+        "around 63/64/255 bytes) validated by TLC.  Non-trivial there = an instance moved while another one stood on an element.")
     ck.assumptions = list(ck.assumptions or []) + [
         "drv/mapbuf.c (+ the included drv/cowarray.c) and drv/mapbuf_seam.c project the state without judgement; the seam's "
         "mmap wrapper only adds a guard page and canary bytes behind each mapping",
         "a buffer metatype is observed through the buffer it hands out (conversion to TypeBufferPtr)"]
-    return ok and bok
+    return ok and bok and iok
 
 
 def replay(det, path="-"):
@@ -539,7 +687,16 @@ def replay(det, path="-"):
         print(json.dumps(det, indent=1)[:4000])
         return 2
     exe = build()
-    if det.get("bitmap"):
+    if det.get("iter"):
+        recs, _ = vlib.run_driver(exe, vlib.to_script([beh]), env=c04.DRV_ENV)
+        if all("exp" in s for s in beh):
+            mms = vlib.compare([beh], recs, it_match)
+            for mm in mms:
+                print("VIOLATION property=C04 replay=%s  (%s: %s)" % (path, it_signature(mm["why"], beh, mm["i"], recs), mm["why"]))
+            return 1 if mms else 0
+        events = vlib.merge_trace([beh], recs)
+        ok, matched, _ = vlib.validate_trace("Trace_MetaIter", events, tag="Trace_MetaIter_replay")
+    elif det.get("bitmap"):
         recs, _ = vlib.run_driver(exe, bm_script([beh]), env=c04.DRV_ENV)
         if all("exp" in s for s in beh):
             mms = vlib.compare([beh], recs, bm_match)
@@ -598,6 +755,21 @@ if __name__ == "__main__":
                 for st in d["behaviour"]:
                     print("   ", st["a"], json.dumps(st.get("arg"))[:200])
                 print("    rec:", json.dumps(d["record"])[:600])
+        sys.exit(0)
+    if tier == "it":
+        ck = vlib.Check("C04", "quick")
+        ck.pid = "X23dev"
+        t0 = time.time()
+        r = do_it_replay(sys.argv[2])
+        print(json.dumps(r["note"]), len(r["nt"]), r["tlc"].violation, "%.1fs" % (time.time() - t0))
+        for s_, d in r["found"][:5]:
+            print(s_, d["why"], json.dumps([(x["a"], x.get("arg")) for x in d["behaviour"]])[:400])
+        hist, recs, events = it_record(ck, dict(ihist=int(sys.argv[3]), isteps=int(sys.argv[4])))
+        from collections import Counter
+        print(Counter((e["a"], (e.get("obs") or {}).get("ret")) for e in events).most_common(40))
+        print(it_validate(ck, hist, events), len(events), "%.1fs" % (time.time() - t0))
+        for sig, path in ck.violations:
+            print("VIOLATION", sig, path)
         sys.exit(0)
     if tier == "bm":
         ck = vlib.Check("C04", "quick")
